@@ -68,7 +68,7 @@ theorem stepR_total (s : H2.Server.Srv) (ev : H2.Server.Event) : ∃ r : H2.Serv
 /-- the outcomes: a list of frames/dispatch records/markers; the only panic marker is the handler's -/
 theorem outcomes_enumerated (o : H2.Server.Out) :
     (∃ x, o = .settings x) ∨ o = .settingsAck ∨ (∃ a b, o = .wu a b) ∨ (∃ a b, o = .ping a b) ∨
-    (∃ a b c d e f, o = .headers a b c d e f) ∨ (∃ a b c d, o = .data a b c d) ∨ (∃ a b, o = .rst a b) ∨
+    (∃ a b c d e f, o = .headers a b c d e f) ∨ (∃ a b c d e, o = .cont a b c d e) ∨ (∃ a b c d, o = .data a b c d) ∨ (∃ a b, o = .rst a b) ∨
     (∃ a b c, o = .goAway a b c) ∨ (∃ a b c d e f, o = .dispatch a b c d e f) ∨
     o = .handlerPanicLogged ∨ o = .returned := by
   cases o <;> simp
